@@ -139,7 +139,7 @@ partial def pExpr : Sexp → P Expr
   | .list [.atom "appends", s, t] => do pure (.appendSlice (← pExpr s) (← pExpr t))
   | .list [.atom "copy", d, s] => do pure (.copy (← pExpr d) (← pExpr s))
   | .list [.atom "toiface", t, e] => do pure (.toIface (← pTy t) (← pExpr e))
-  | .list [.atom "assert", e, t, two] => do pure (.assert (← pExpr e) (← pTy t) (← pBool two))
+  | .list [.atom "assert", e, t, two, z] => do pure (.assert (← pExpr e) (← pTy t) (← pBool two) (← pExpr z))
   | .list [.atom "asserti", e, n, two] => do pure (.assertI (← pExpr e) (← pNat n) (← pBool two))
   | .list [.atom "recover"] => pure .recover
   | .list (.atom h :: _) => fail s!"expression expected, got ({h} …)"
